@@ -98,3 +98,24 @@ prop("C16",
      required_probes=["matcher:equals:cs", "matcher:equalsNot:cs", "matcher:startsWith:cs", "matcher:endsWith:cs", "matcher:contains:cs", "matcher:containsAllOf:cs",
                       "matcher:equals:ci", "matcher:equalsNot:ci", "matcher:startsWith:ci", "matcher:endsWith:ci", "matcher:contains:ci", "matcher:containsAllOf:ci",
                       "rule_refused", "get_rule_refused", "get_with_rule", "repeated_option_key", "add_then_fetch", "notify_add", "get_selected>=2"])
+
+prop("C13",
+     mix=[("c13", "default", 3), ("c13", "small", 1.5), ("c13", "batch1", 0.5)],
+     quick_mix=[("c13", "default", 2), ("c13", "small", 1)],
+     quick_s=25, thorough_s=600, opts={"memprop": "C13"},
+     rule="seeded HTTP exchanges that are clearly not a valid upgrade (wrong path, method or version, malformed request line or header, over-long line, missing or wrong Upgrade/Connection/key/version headers per RFC 6455 4.2.1, "
+          "request corrupted at a drawn byte, request truncated at a drawn byte and then closed by FIN, reset or hang-up) under random segmentation, read caps and batching, next to healthy peers; oracle: never 101, an error status or a close, "
+          "peer count never above the number of open connections, heap/arena/descriptors back at baseline once the connections are gone, canary served, clean SIGTERM. non-trivial: an invalid request reached the daemon; distinct by trace hash",
+     nontrivial=[["accepted:ws"]],
+     required_probes=["http_error_status:400", "http_error_status:404", "truncated_send", "client_close:fin", "client_close:rst", "canary_ok", "idle_baseline_checked", "exit_checked"])
+
+prop("C12",
+     mix=[("c12", "default", 3), ("c12", "small", 1.5), ("c12", "batch1", 0.5)],
+     quick_mix=[("c12", "default", 2), ("c12", "small", 1)],
+     quick_s=25, thorough_s=600, opts={"memprop": "C12"},
+     rule="seeded valid upgrades in many spellings (header order and case, extra and repeated headers, several offered protocols, HTTP/1.1 and above) followed by frame sequences over the header space (every opcode, FIN/RSV/MASK combination, "
+          "non-minimal length encodings, payload lengths around 0/125/126, pings and pongs with arbitrary payloads, close frames of every status class with valid and invalid UTF-8 reasons, fragmented data and control frames) mixed with JSON-RPC "
+          "traffic of raw and WebSocket peers under random segmentation; oracle: an RFC 6455 expectation table written for the harness (101 + accept digest + subprotocol; server frames unmasked, complete, minimal; pong payload; close status 1002/1007; "
+          "close frame before the connection ends; nothing after a close frame) and the same reference model for JSON-RPC on both transports. non-trivial: an upgrade completed and at least one protocol-level frame was judged; distinct by trace hash",
+     nontrivial=[["ws_upgraded", "ws_ping"], ["ws_upgraded", "ws_violation_1002"], ["ws_upgraded", "ws_close_valid"], ["ws_upgraded", "ws_violation_1007"], ["ws_upgraded", "ws_fragment"]],
+     required_probes=["ws_upgraded", "ws_ping", "ws_pong_matched", "ws_pong_in", "ws_close_valid", "ws_violation_1002", "ws_violation_1007", "ws_violation_1002_or_1007", "ws_fragment", "ws_binary", "ws_close_from_daemon:1002", "ws_close_from_daemon:1007"])
